@@ -74,7 +74,7 @@ class Trace(list):
   @classmethod
   def _from_string(cls,string):
     try:
-      if not re.match(r"^-?[0-9]+(,-?[0-9]+)*$", string):
+      if not re.match(r"^-?[0-9]+(,-?[0-9]+)*\Z", string):
         raise gfapy.FormatError()
       return Trace([int(v) for v in string.split(",")])
     except:
